@@ -3,9 +3,9 @@
 EDITS: name -> list of (file, old, new)."""
 import subprocess, os, sys, shutil, tempfile
 REPO = os.environ.get("PATCH_BASE", "/repo")
-OUT = "/work/store/notes/repo_patches"
+OUT = os.path.dirname(os.path.abspath(__file__))
 EDITS = {}
-exec(open("/tmp/store/edits.py").read())
+exec(open(os.path.join(OUT, "edits.py")).read())
 def apply(names, dest):
     """copy touched files of REPO into dest and apply the edits of all names"""
     done = {}
